@@ -141,6 +141,14 @@ trait Write: Sized {
         ensures (*old(self)).sink_id() == (*final(self)).sink_id(), r is Ok ==> (*final(self)).written() == (*old(self)).written() + le32(x) && (*final(self)).seen() == (*old(self)).seen() + le32(x)
     { unimplemented!() }
     #[verifier::external_body]
+    fn write_u16_le(&mut self, x: u16) -> (r: Result<(), Error>)
+        ensures (*old(self)).sink_id() == (*final(self)).sink_id(), r is Ok ==> (*final(self)).written() == (*old(self)).written() + le16(x) && (*final(self)).seen() == (*old(self)).seen() + le16(x)
+    { unimplemented!() }
+    #[verifier::external_body]
+    fn write_u64_le(&mut self, x: u64) -> (r: Result<(), Error>)
+        ensures (*old(self)).sink_id() == (*final(self)).sink_id(), r is Ok ==> (*final(self)).written() == (*old(self)).written() + le64(x) && (*final(self)).seen() == (*old(self)).seen() + le64(x)
+    { unimplemented!() }
+    #[verifier::external_body]
     fn write_u128_le(&mut self, x: u128) -> (r: Result<(), Error>)
         ensures (*old(self)).sink_id() == (*final(self)).sink_id(), r is Ok ==> (*final(self)).written() == (*old(self)).written() + le128(x) && (*final(self)).seen() == (*old(self)).seen() + le128(x)
     { unimplemented!() }
@@ -1142,6 +1150,97 @@ impl<'a> Reader<'a> {
         Ok(value)
     }
 //@ END
+}
+
+// ---------------- blob frames, writer side (vlog/blob_file/writer.rs: write_raw) ----------------
+/// the bytes of one stored blob: magic, xxh3-128 of key ++ payload, seqno, key length, real value length, on-disk value length, key, payload
+spec fn blob_frame(key: Seq<u8>, seqno: u64, value: Seq<u8>, uncompressed_len: u32) -> Seq<u8> {
+    BLOB_HEADER_MAGIC@ + le128(hash128(key + value)) + le64(seqno) + le16(key.len() as u16) + le32(uncompressed_len) + le32(value.len() as u32) + key + value
+}
+/// xxh3::Xxh3::update with a byte slice
+impl Xxh3 {
+    #[verifier::external_body] pub fn update_bytes(&mut self, b: &[u8]) ensures final(self).fed() == old(self).fed() + b@ { unimplemented!() }
+}
+/// `std::borrow::Cow::Borrowed(value)`: the writer's payload when no compression applies
+struct CowBytes<'a> { b: &'a [u8] }
+impl<'a> CowBytes<'a> {
+    fn borrowed(b: &'a [u8]) -> (r: Self) ensures r.b@ == b@ { CowBytes { b } }
+    fn len(&self) -> (r: usize) ensures r == self.b@.len() { self.b.len() }
+    fn bytes(&self) -> (r: &[u8]) ensures r@ == self.b@ { self.b }
+}
+#[derive(Copy, Clone)] enum BlobCompression { Standard(CompressionType), Passthrough(CompressionType) }
+struct BlobWriter<W: Write> { writer: W, blob_compression: BlobCompression }
+
+//@ WRAPPER_BEGIN
+impl<W: Write> BlobWriter<W> {
+    /// wrapper (generated) around the statements of blob_file::Writer::write_raw that emit one frame (the bookkeeping of offsets,
+    /// counters and first / last key around them is not under contract)
+    fn write_frame(&mut self, key: &[u8], seqno: u64, value: &[u8], uncompressed_len: u32) -> (r: Result<(), Error>)
+        requires key@.len() <= u16::MAX, value@.len() <= u32::MAX
+        ensures r is Ok ==> (*final(self)).writer.written() == (*old(self)).writer.written() + blob_frame(key@, seqno, value@, uncompressed_len)
+    {
+//@ FROM src/vlog/blob_file/writer.rs :: impl Writer :: fn write_raw :: STMTS `self . writer . write_all ( BLOB_HEADER_MAGIC ) ? ;` .. `<self . offset += BLOB_HEADER_MAGIC` :: OBL C08.10, C12.12
+//@ SUBST `write_all ( BLOB_HEADER_MAGIC )` ==> `write_all(&BLOB_HEADER_MAGIC)`
+//@ SUBST `std :: borrow :: Cow :: Borrowed ( value )` ==> `CowBytes::borrowed(value)`
+//@ SUBST `xxhash_rust :: xxh3 :: Xxh3 :: default ( )` ==> `Xxh3::default()`
+//@ SUBST `hasher . update ( key )` ==> `hasher.update_bytes(key)`
+//@ SUBST `hasher . update ( & value )` ==> `hasher.update_bytes(value.bytes())`
+//@ SUBST `write_all ( & value )` ==> `write_all(value.bytes())`
+//@ SUBST `write_u128 :: < LittleEndian >` ==> `write_u128_le`
+//@ SUBST `write_u64 :: < LittleEndian >` ==> `write_u64_le`
+//@ SUBST `write_u16 :: < LittleEndian >` ==> `write_u16_le`
+//@ SUBST `write_u32 :: < LittleEndian >` ==> `write_u32_le`
+        /*+*/let ghost w0 = self.writer.written();/*-*/
+        self.writer.write_all(&BLOB_HEADER_MAGIC)?;
+
+        let value = match &self.blob_compression {
+            _ => CowBytes::borrowed(value),
+        };
+
+        let checksum = {
+            let mut hasher = Xxh3::default();
+            hasher.update_bytes(key);
+            hasher.update_bytes(value.bytes());
+            hasher.digest128()
+        };
+
+        // Write checksum
+        self.writer.write_u128_le(checksum)?;
+
+        // Write seqno
+        self.writer.write_u64_le(seqno)?;
+
+        self.writer.write_u16_le(key.len() as u16)?;
+
+        // Write uncompressed value length
+        self.writer.write_u32_le(uncompressed_len)?;
+
+        // Write compressed (on-disk) value length
+        self.writer.write_u32_le(value.len() as u32)?;
+
+        self.writer.write_all(key)?;
+        self.writer.write_all(value.bytes())?;
+        /*+*/proof { assert(self.writer.written() =~= w0 + blob_frame(key@, seqno, value.b@, uncompressed_len)); }
+        Ok(())/*-*/
+//@ END
+    }
+}
+//@ WRAPPER_END
+
+/// C08.10 / C12.12: what write_raw stores is accepted by Reader::get, which then returns exactly the stored payload
+proof fn lemma_blob_roundtrip(key: Seq<u8>, seqno: u64, value: Seq<u8>, ul: u32)
+    requires key.len() <= u16::MAX, value.len() <= u32::MAX
+    ensures ({ let f = blob_frame(key, seqno, value, ul); f.len() == 38 + key.len() + value.len() && f.skip(38 + key.len() as int) == value && blob_frame_ok(f, value) })
+{
+    broadcast use axiom_le;
+    let f = blob_frame(key, seqno, value, ul);
+    assert(BLOB_HEADER_MAGIC@.len() == 4);
+    assert(f.len() == 38 + key.len() + value.len());
+    assert(f.skip(38 + key.len() as int) =~= value);
+    assert(f.subrange(0, 4) =~= BLOB_HEADER_MAGIC@);
+    assert(f.subrange(4, 20) =~= le128(hash128(key + value)));
+    assert(f.subrange(28, 30) =~= le16(key.len() as u16));
+    assert(f.subrange(38, 38 + key.len() as int) =~= key);
 }
 
 }
